@@ -21,6 +21,9 @@ Record case := {
   c_out : option (list info);
   c_out_used : list dotted;
   c_mods : list dotted;    (* absolute names of the modules and packages of the generated world *)
+  c_deps : list (dotted * list dotted);
+                           (* library modules that import other library modules (facades): loading the
+                              module loads those too *)
   c_faithful : bool;       (* harness: for every star-imported module rope's public-name list is the set
                               CPython's star import binds (the module has no restricting __all__) *)
   c_cmp_used : bool;       (* harness: no from-import of a standard module (the standard library re-exports
@@ -196,12 +199,23 @@ Definition loads_info (lay : layout) (mods : list dotted) (i : info) : list dott
   | FromStar m lv => match abs_of lay m lv with Some a => prefixes a | None => [] end
   | Empty => []
   end.
-Definition loads (lay : layout) (mods : list dotted) (l : list stmt) : list dotted :=
+Definition loads_direct (lay : layout) (mods : list dotted) (l : list stmt) : list dotted :=
   flat_map (fun s => loads_info lay mods (s_info s)) l.
+
+(* a loaded module loads the modules it imports itself (one level of library imports, applied twice) *)
+Definition with_deps (deps : list (dotted * list dotted)) (ms : list dotted) : list dotted :=
+  ms ++ flat_map (fun m => match assoc dotted_eqb m deps with
+                           | Some ds => flat_map prefixes ds
+                           | None => []
+                           end) ms.
 
 (* what a primary denotes when the module runs: level and canonical path, and whether every submodule on
    the way is loaded *)
-Definition denotes (lay : layout) (mods : list dotted) (l : list stmt) (u : dotted) : option (N * dotted * bool) :=
+Definition loads (lay : layout) (mods : list dotted) (deps : list (dotted * list dotted)) (l : list stmt) : list dotted :=
+  with_deps deps (with_deps deps (loads_direct lay mods l)).
+
+Definition denotes (lay : layout) (mods : list dotted) (deps : list (dotted * list dotted)) (l : list stmt) (u : dotted)
+  : option (N * dotted * bool) :=
   match u with
   | [] => None
   | h :: r =>
@@ -212,7 +226,7 @@ Definition denotes (lay : layout) (mods : list dotted) (l : list stmt) (u : dott
           let full := base ++ r in
           Some (snd (fst o), full,
                 forallb (fun q => negb (Nat.ltb (length base) (length q)) || negb (dmem q mods)
-                                  || dmem q (loads lay mods l)) (prefixes full))
+                                  || dmem q (loads lay mods deps l)) (prefixes full))
       end
   end.
 
@@ -229,15 +243,15 @@ Definition under (me : option dotted) (d : option (N * dotted * bool)) : bool :=
   | _, _ => false
   end.
 
-Fixpoint pairwise_same (lay : layout) (mods : list dotted) (me : option dotted) (before after : list stmt)
+Fixpoint pairwise_same (lay : layout) (mods : list dotted) (deps : list (dotted * list dotted)) (me : option dotted) (before after : list stmt)
          (us us' : list dotted) : bool :=
   match us, us' with
   | u :: r, u' :: r' =>
-      (match denotes lay mods before u with
+      (match denotes lay mods deps before u with
        | None => true                                   (* not bound by an import (a builtin, a definition) *)
        | d => under me d                                (* the module's own definition reached through itself *)
-              || den_eqb (denotes lay mods after u') d
-       end) && pairwise_same lay mods me before after r r'
+              || den_eqb (denotes lay mods deps after u') d
+       end) && pairwise_same lay mods deps me before after r r'
   | [], [] => true
   | _, _ => false
   end.
@@ -259,7 +273,7 @@ Definition predicts_semantic (c : case) : bool :=
       let ex := map (fun n => [n]) (c_exported c) in
       (* the primaries rope's finder does not see are not renamed *)
       let extra := c_hidden c in
-      negb (pairwise_same (py_lay c) (c_mods c) (if N.eqb (c_action c) 0 then Some (c_me c) else None) (c_stmts c) l (c_used c ++ extra ++ ex) (us ++ extra ++ ex))
+      negb (pairwise_same (py_lay c) (c_mods c) (c_deps c) (if N.eqb (c_action c) 0 then Some (c_me c) else None) (c_stmts c) l (c_used c ++ extra ++ ex) (us ++ extra ++ ex))
   end.
 
 Definition predicts_idempotence (c : case) : bool :=
@@ -276,7 +290,9 @@ Fixpoint predictions_from (i : N) (cs : list case) : list (N * N) :=
   match cs with
   | [] => []
   | c :: r =>
-      let bits := ((if predicts_semantic c then 1 else 0) + (if predicts_idempotence c then 2 else 0))%N in
+      let bits := if (N.leb 3 (c_action c)) && negb (c_cmp_used c && consistent (c_lay c) (c_stmts c))
+                  then 3%N      (* the renaming is outside the model: no prediction, attribution by shape only *)
+                  else ((if predicts_semantic c then 1 else 0) + (if predicts_idempotence c then 2 else 0))%N in
       if N.eqb bits 0 then predictions_from (N.succ i) r else (i, bits) :: predictions_from (N.succ i) r
   end.
 Definition predictions (cs : list case) : list (N * N) := predictions_from 0 cs.
